@@ -13,8 +13,12 @@ Open Scope N_scope.
 (** [DNop]: a job run fails between two pages - no call reaches the dataset.
     [DPause]: time passes, less than a lease (the driver sleeps half a lease): nothing fires, every running
     timer is old from now on.  [DExpireOld]: time passes until the old timers' deadline, but not the younger
-    ones': the old timers fire (oldest first), the younger ones keep running. *)
-Inductive devent := DEv (e : event) | DExpireAll | DNop | DPause | DExpireOld.
+    ones': the old timers fire (oldest first), the younger ones keep running.
+    [DJobPageFail n ents]: a page of job run n through the real pipeline in which the sink refuses an
+    entity and the run stops there (no error handler and the refused entity first; or a `log` handler capped at
+    one item): [ents] are the entities in front of the refused one - they are written, the call fails, the run
+    is over without endFullSync. *)
+Inductive devent := DEv (e : event) | DExpireAll | DNop | DPause | DExpireOld | DJobPageFail (n : N) (ents : list ent).
 
 Record ostep := mkOstep {
   o_status : N;          (* 0 ok | 1 conflict 409 | 2 gone 410 | 3 bad request | 4 server error | 5 other | 6 job error | 9 panic *)
@@ -52,6 +56,7 @@ Definition dstep (v : variant) (e : devent) (s : state) : resp * state :=
   | DNop => (RNone, s)
   | DPause => (RNone, age s)
   | DExpireOld => (RNone, expire_old s)
+  | DJobPageFail n ents => (RJobErr, snd (step v (EJobBatch n ents) s))
   end.
 
 Fixpoint predict_from (v : variant) (h : list devent) (s : state) : list ostep :=
@@ -81,6 +86,7 @@ Definition dsstep (e : devent) (gf : dspec) : resp * dspec :=
   | DNop => (RNone, gf)
   | DPause => (RNone, (g, false))
   | DExpireOld => if f then (RNone, gf) else let (r, g1) := sstep EExpire g in (r, (g1, f))
+  | DJobPageFail n ents => (RJobErr, (snd (sstep (EJobBatch n ents) g), f))
   end.
 
 Definition is_some {A} (o : option A) : bool := match o with Some _ => true | None => false end.
